@@ -10,6 +10,7 @@ import (
 
 	"verifharness/mon"
 	"verifharness/props"
+	"verifharness/sim"
 )
 
 func main() {
@@ -79,6 +80,10 @@ func main() {
 			}
 		}()
 		e.Fn(run, mon.NewRand(uint64(seed)), tier == "thorough")
+		if n := sim.ShadowStats.Scripts.Load() + sim.ShadowStats.Speculated.Load(); n > 0 {
+			run.Extra["discarded_branch_activity"] = map[string]int64{"shadow_scripts": sim.ShadowStats.Scripts.Load(), "shadow_tx_accepted": sim.ShadowStats.TxOK.Load(),
+				"shadow_tx_rejected": sim.ShadowStats.TxRejected.Load(), "transactions_first_run_speculatively": sim.ShadowStats.Speculated.Load()}
+		}
 		return run.Finish()
 	}()
 	os.Exit(code)
